@@ -417,6 +417,8 @@ namespace adept {
 	// gradient or Hessian for efficiency
 	new_x = x;
 	new_x(ifree) += sub_dx;
+	// Rounding of x+frac*dx can leave the box by an ulp
+	new_x = max(min_x, min(new_x, max_x));
 	new_cost = optimizable.calc_cost_function(new_x);
 	state_up_to_date = -1;
 	++n_samples_;
